@@ -341,7 +341,60 @@ fn run_parser(p: &str, d: &str, bytes: &[u8]) -> (&'static str, &'static str) {
                 Err(_) => ("err", ""),
             }
         }
+        // Not a parser of /repo: a stand-in that misbehaves on demand, used by the check to prove that the worker and
+        // the supervisor observe and attribute every kind of misbehaviour (first byte selects it).
+        "selftest" => selftest_behaviour(bytes),
         _ => ("err", "unknown-parser"),
+    }
+}
+
+#[inline(never)]
+fn selftest_recurse(n: u64, acc: &mut [u8; 256]) -> u64 {
+    let mut local = [0u8; 256];
+    local[(n % 256) as usize] = acc[(n % 7) as usize].wrapping_add(1);
+    if n == u64::MAX {
+        return 0;
+    }
+    selftest_recurse(n + 1, &mut local) + local[3] as u64
+}
+
+fn selftest_behaviour(bytes: &[u8]) -> (&'static str, &'static str) {
+    match bytes.first() {
+        Some(b'p') => {
+            let v: Vec<u8> = Vec::new();
+            let i = bytes.len() + 5;
+            if v[i] == 1 {
+                return ("ok", "");
+            }
+            ("ok", "")
+        }
+        Some(b'a') => std::process::abort(),
+        Some(b's') => {
+            let mut a = [1u8; 256];
+            if selftest_recurse(0, &mut a) == 1 {
+                return ("ok", "");
+            }
+            ("err", "")
+        }
+        Some(b'm') => {
+            let v = vec![0u8; 1usize << 42];
+            if v[bytes.len()] == 1 {
+                return ("ok", "");
+            }
+            ("err", "")
+        }
+        Some(b'M') => {
+            let v = vec![1u8; 100 << 20];
+            if v[bytes.len()] == 2 {
+                return ("err", "");
+            }
+            ("ok", "")
+        }
+        Some(b'h') => loop {
+            std::thread::sleep(Duration::from_millis(50));
+        },
+        Some(b'e') => ("err", ""),
+        _ => ("ok", ""),
     }
 }
 
@@ -565,6 +618,9 @@ struct Case {
 }
 
 fn intern_parser(p: &str) -> Option<&'static str> {
+    if p == "selftest" {
+        return Some("selftest");
+    }
     PARSERS.iter().find(|x| **x == p).copied()
 }
 
@@ -847,7 +903,7 @@ struct Item {
     case: std::sync::Arc<Case>,
     d: &'static str,
     limit_ms: u64,
-    retried: bool,
+    retried: u8,
 }
 
 struct WorkerProc {
@@ -917,6 +973,11 @@ struct ShardOut {
     max_kib_over_len: (u64, u64, u64),
     not_total: Vec<J>,
     max_us: u64,
+    ok_hashes: std::collections::HashSet<u64>,
+}
+
+fn case_hash(p: &str, bytes: &[u8]) -> u64 {
+    hv::util::fnv64(bytes) ^ hv::util::fnv64(p.as_bytes()).rotate_left(17)
 }
 
 #[allow(clippy::too_many_arguments)]
@@ -931,7 +992,7 @@ fn run_shard(
     keep: usize,
 ) -> ShardOut {
     let mut log = std::io::BufWriter::with_capacity(1 << 20, std::fs::File::create(&log_path).expect("log file"));
-    let mut out = ShardOut { records: 0, restarts: 0, by_outcome: Default::default(), max_kib_over_len: (0, 0, 0), not_total: Vec::new(), max_us: 0 };
+    let mut out = ShardOut { records: 0, restarts: 0, by_outcome: Default::default(), max_kib_over_len: (0, 0, 0), not_total: Vec::new(), max_us: 0, ok_hashes: Default::default() };
     let mut pending: VecDeque<Item> = VecDeque::new(); // sent to the current worker, unanswered (front = in flight)
     let mut resend: VecDeque<Item> = VecDeque::new(); // must be sent again to the next worker
     let mut gen: u64 = 0; // worker generation of this shard
@@ -939,6 +1000,7 @@ fn run_shard(
     let mut input_done = false;
     let mut w: Option<WorkerProc> = None;
     let mut last_terminal = false;
+    let mut retry_item: Option<Item> = None; // a timed-out case waiting for its longer second / third attempt
     let mut fatal_logged = false; // the death of the current worker is accounted for by a logged record
 
     let mut rt: u64 = 0; // restarts of the worker that no logged record accounts for (retried timeouts)
@@ -954,6 +1016,9 @@ fn run_shard(
         *n += 1;
         out.records += 1;
         *out.by_outcome.entry(o.to_string()).or_insert(0) += 1;
+        if o == "ok" {
+            out.ok_hashes.insert(case_hash(it.case.p, &it.case.bytes));
+        }
         if us > out.max_us {
             out.max_us = us;
         }
@@ -1041,11 +1106,11 @@ fn run_shard(
             let o = v["o"].as_str().unwrap_or("?").to_string();
             last_terminal = o == "timeout" || o == "oom";
             fatal_logged = last_terminal;
-            if o == "timeout" && !it.retried {
-                // escalating wait: run it again, alone at the head of a fresh worker, with 4x the limit; only a
-                // second timeout is logged (the restart in between is declared in the log as `rt`)
-                let again = Item { case: it.case.clone(), d: it.d, limit_ms: it.limit_ms * 4, retried: true };
-                resend.push_front(again);
+            if o == "timeout" && it.retried < 2 {
+                // escalating waits (5 s, 20 s, 60 s): run it again at the head of a fresh worker with a longer limit;
+                // only the third timeout is logged (the restarts in between are declared in the log as `rt`)
+                let factor = if it.retried == 0 { 4 } else { 3 };
+                retry_item = Some(Item { case: it.case.clone(), d: it.d, limit_ms: it.limit_ms * factor, retried: it.retried + 1 });
                 fatal_logged = false;
                 continue;
             }
@@ -1086,6 +1151,9 @@ fn run_shard(
         // everything else that was sent must be sent again, in order, before new input
         while let Some(it) = pending.pop_back() {
             resend.push_front(it);
+        }
+        if let Some(it) = retry_item.take() {
+            resend.push_front(it); // the retried case runs first, at the head of the fresh worker
         }
     }
     let _ = log.flush();
@@ -1128,12 +1196,17 @@ fn supervisor(args: &[String]) {
     let mut by_family: std::collections::BTreeMap<String, u64> = Default::default();
     let mut samples: Vec<J> = Vec::new();
     let mut distinct: std::collections::HashSet<u64> = Default::default();
+    let mut structured: std::collections::HashSet<u64> = Default::default();
     let mut maxlen = 0usize;
     plan.for_each(&mut |c: Case| {
         inputs += 1;
         *by_family.entry(format!("{}/{}", c.p, c.fam)).or_insert(0) += 1;
         maxlen = maxlen.max(c.bytes.len());
-        distinct.insert(hv::util::fnv64(&c.bytes) ^ hv::util::fnv64(c.p.as_bytes()).rotate_left(17));
+        let h = case_hash(c.p, &c.bytes);
+        distinct.insert(h);
+        if c.fam != "short" && c.fam != "rand-bytes" && c.fam != "rand-alpha" {
+            structured.insert(h);
+        }
         if samples.len() < 6 && c.fam != "short" && c.fam != "seed" && c.id % 977 == 5 {
             samples.push(json!({"p": c.p, "fam": c.fam, "hex": hex_encode(&c.bytes[..c.bytes.len().min(48)])}));
         }
@@ -1142,7 +1215,7 @@ fn supervisor(args: &[String]) {
         for d in deliveries(c.p, &c.bytes) {
             let sh = (items as usize) % shards;
             items += 1;
-            if txs[sh].send(Item { case: c.clone(), d, limit_ms: limit, retried: false }).is_err() {
+            if txs[sh].send(Item { case: c.clone(), d, limit_ms: limit, retried: 0 }).is_err() {
                 return false;
             }
         }
@@ -1155,6 +1228,7 @@ fn supervisor(args: &[String]) {
     let mut not_total: Vec<J> = Vec::new();
     let mut worst = (0u64, 1u64, 0u64);
     let mut max_us = 0;
+    let mut accepted: u64 = 0;
     for h in handles {
         let o = h.join().expect("shard thread");
         records += o.records;
@@ -1163,6 +1237,8 @@ fn supervisor(args: &[String]) {
             *by_outcome.entry(k).or_insert(0) += v;
         }
         not_total.extend(o.not_total);
+        accepted += o.ok_hashes.len() as u64;
+        structured.extend(o.ok_hashes);
         if o.max_kib_over_len.0 * worst.1 > worst.0 * o.max_kib_over_len.1 {
             worst = o.max_kib_over_len;
         }
@@ -1170,7 +1246,8 @@ fn supervisor(args: &[String]) {
     }
     let _ = std::fs::remove_dir_all(&cwd);
     hv::util::out_line(&json!({
-        "summary": true, "inputs": inputs, "distinct_inputs": distinct.len(), "items": items, "records": records,
+        "summary": true, "inputs": inputs, "distinct_inputs": distinct.len(), "distinct_nontrivial": structured.len(),
+        "accepted_by_shard_sum": accepted, "items": items, "records": records,
         "worker_restarts": restarts, "by_outcome": by_outcome, "by_family": by_family, "not_total": not_total,
         "worst_kib": {"kib": worst.0, "bound_kib": worst.1, "id": worst.2}, "max_call_us": max_us, "max_input_len": maxlen,
         "shards": shards, "rlimit_mb": rlimit_mb, "stack_kib": stack_kib, "watchdog_ms": watchdog,
